@@ -83,6 +83,7 @@ class C15(Prop):
     assumptions = ["asyncio.Semaphore fairness and wake-up order are assumed; function-node bodies and interrupt handlers take a permit (the latter since the repair recorded as C15-X1)"]
 
     def cases(self, rng: random.Random, tier: str) -> Iterable[dict]:
+        forced_prior = ["map-empty", "map-zip-mismatch", "map-missing"] * 2      # whatever the seed: an earlier degenerate map() with a LARGER limit in the same task
         forced_map = 5      # whatever the seed: runner.map under a limit of 2-3 over 3-4 items that complete OUT of dispatch order
         while True:
             s = gen_shape(rng)
@@ -99,7 +100,7 @@ class C15(Prop):
             yield {"program": program, "depth": s["depth"], "top_map": top_map, "items": rng.randint(1, 4), "k": rng.randint(1, 4),
                    "policy": rng.choice(["lifo", "fifo", "random"]), "seed": rng.randint(0, 10**6),
                    # an earlier run in the same task, with a LARGER limit, that ended abnormally (its limiter must not outlive it)
-                   "prior": rng.choice([None, None, "fail", "fail-continue", "pause"])}
+                   "prior": forced_prior.pop() if forced_prior else rng.choice([None, None, "fail", "fail-continue", "pause", "map-empty", "map-zip-mismatch", "map-missing"])}
 
     @staticmethod
     def _values(case: dict) -> list:
